@@ -258,8 +258,18 @@ func c17Run(r *Run) {
 						continue
 					}
 					kinds := []string{}
+					scalar := false
 					for _, k := range cc.List {
-						kinds = append(kinds, strings.TrimPrefix(exprStr(k), "reflect."))
+						kn := strings.TrimPrefix(exprStr(k), "reflect.")
+						kinds = append(kinds, kn)
+						if strings.HasPrefix(kn, "Int") || strings.HasPrefix(kn, "Uint") || strings.HasPrefix(kn, "Float") || kn == "Bool" || kn == "String" {
+							scalar = true
+						}
+					}
+					if !scalar {
+						// pointers, structs, slices …: what the script receives for them is not a scalar image of the Go
+						// value in the first place (an arm that dereferences and converts again is judged on the inner kind)
+						continue
 					}
 					ast.Inspect(cc, func(m ast.Node) bool {
 						ce, ok := m.(*ast.CallExpr)
@@ -332,6 +342,8 @@ func c17Run(r *Run) {
 	c17KindTables(r, rp)
 	r.curRule = "C17-NARROW"
 	c17SignedToUnsigned(r, rp)
+	r.curRule = "C17-EXH"
+	c17NilBeforeElem(r, rp)
 	// NARROW: utils generic converters
 	r.curRule = "C17-NARROW"
 	uinfo := up.TypesInfo
@@ -555,6 +567,7 @@ func c17Run(r *Run) {
 
 // c17ConvertedTo: the expression ends in .Convert(target), or is reflect.New/Zero(target)[.Elem()].
 func c17ConvertedTo(e ast.Expr, target string) bool {
+	derefs := 0
 	for {
 		c, ok := ast.Unparen(e).(*ast.CallExpr)
 		if !ok {
@@ -567,10 +580,20 @@ func c17ConvertedTo(e ast.Expr, target string) bool {
 		switch se.Sel.Name {
 		case "Convert":
 			return len(c.Args) == 1 && exprStr(c.Args[0]) == target
-		case "New", "Zero":
+		case "New":
+			if len(c.Args) != 1 {
+				return false
+			}
+			// reflect.New(T).Elem() is a T; reflect.New(T.Elem()) itself is a T when T is a pointer type
+			if derefs == 0 {
+				return strings.ReplaceAll(exprStr(c.Args[0]), " ", "") == target+".Elem()"
+			}
+			return exprStr(c.Args[0]) == target
+		case "Zero":
 			return len(c.Args) == 1 && exprStr(c.Args[0]) == target
 		case "Elem":
 			e = se.X
+			derefs++
 			continue
 		}
 		return false
@@ -1309,3 +1332,106 @@ func c17SignedToUnsigned(r *Run, rp *packages.Package) {
 		}
 	}
 }
+
+// c17NilBeforeElem (C17-EXH, clause #nil-before-elem): a function that turns a Go result (a reflect.Value
+// parameter) into a script value dereferences it with Elem() only after IsNil() has been asked on every
+// path — a nil *T, nil interface or nil map handed back by Go is a legitimate result, and Elem() of it is
+// the zero Value whose Interface()/Int()/String() panic.
+func c17NilBeforeElem(r *Run, rp *packages.Package) {
+	info := rp.TypesInfo
+	type st map[string]bool
+	for _, fd := range funcDecls(rp) {
+		if fd.Body == nil || fd.Type.Results == nil || len(fd.Type.Results.List) == 0 {
+			continue
+		}
+		if !isNamed(info.TypeOf(fd.Type.Results.List[0].Type), modPath+"/data", "GetValue") && !isNamed(info.TypeOf(fd.Type.Results.List[0].Type), modPath+"/data", "Value") {
+			continue
+		}
+		params := map[types.Object]bool{}
+		for _, f := range fd.Type.Params.List {
+			if c17IsReflectValue(info.TypeOf(f.Type)) {
+				for _, nm := range f.Names {
+					params[info.Defs[nm]] = true
+				}
+			}
+		}
+		if len(params) == 0 {
+			continue
+		}
+		fk := funcKey(rp, fd)
+		verdict := map[token.Pos]bool{}
+		name := map[token.Pos]string{}
+		h := &Hooks{Info: info}
+		h.Copy = func(s State) State {
+			n := st{}
+			for k := range s.(st) {
+				n[k] = true
+			}
+			return n
+		}
+		h.Join = func(a, b State) State {
+			n := st{}
+			for k := range a.(st) {
+				if b.(st)[k] {
+					n[k] = true
+				}
+			}
+			return n
+		}
+		h.Equal = func(a, b State) bool {
+			if len(a.(st)) != len(b.(st)) {
+				return false
+			}
+			for k := range a.(st) {
+				if !b.(st)[k] {
+					return false
+				}
+			}
+			return true
+		}
+		h.Cond = func(e ast.Expr, truth bool, s State) State {
+			if c, ok := ast.Unparen(e).(*ast.CallExpr); ok && len(c.Args) == 0 {
+				if se, ok := ast.Unparen(c.Fun).(*ast.SelectorExpr); ok && se.Sel.Name == "IsNil" {
+					s.(st)[exprStr(se.X)] = true
+				}
+			}
+			return s
+		}
+		h.Visit = func(e ast.Expr, s State) State {
+			c, ok := e.(*ast.CallExpr)
+			if !ok || len(c.Args) != 0 {
+				return s
+			}
+			se, ok := ast.Unparen(c.Fun).(*ast.SelectorExpr)
+			if !ok || se.Sel.Name != "Elem" || !c17IsReflectValue(info.TypeOf(se.X)) {
+				return s
+			}
+			id, ok := ast.Unparen(se.X).(*ast.Ident)
+			if !ok || !params[info.Uses[id]] {
+				return s
+			}
+			tested := s.(st)[exprStr(se.X)]
+			if prev, seen := verdict[c.Pos()]; !seen || (prev && !tested) {
+				verdict[c.Pos()] = tested
+			}
+			name[c.Pos()] = exprStr(c)
+			return s
+		}
+		WalkFunc(h, fd.Body, st{})
+		var ps []token.Pos
+		for p := range verdict {
+			ps = append(ps, p)
+		}
+		sort.Slice(ps, func(i, j int) bool { return ps[i] < ps[j] })
+		for _, p := range ps {
+			key := fk + "#nil-before-elem:" + strings.ReplaceAll(name[p], " ", "")
+			if verdict[p] {
+				r.ok(key, p, name[p]+": IsNil() has been asked on every path to the dereference")
+			} else {
+				r.bad(key, p, name[p]+": the Go result is dereferenced without IsNil() having been asked: a nil pointer / interface returned by the Go function makes the bridge panic instead of giving the script null")
+			}
+		}
+	}
+}
+
+func c17IsReflectValue(t types.Type) bool { return t != nil && isNamed(t, "reflect", "Value") }
